@@ -238,3 +238,77 @@ fn layout_poolset_trivial(arena: &'static Arena) -> PoolSet<'static> {
     });
     PoolSet { pools, arena }
 }
+
+// =====================================================================================================
+// Constructors (the wf states assumed above must be what the constructors establish)
+//   SlotBlock::new(arena, size, count): a block of exactly size*count bytes, 8-aligned, above the old offset, bump == 0
+//   FreeList::new(arena, capacity):     room for exactly `capacity` u32 indices, 4-aligned, above the old offset, len == 0
+//   Pool::new: both, disjoint (the index array starts at or after the end of the slot block), live_count == 0
+//   PoolSet::new: class i is built from (SLOT_SIZES[i], SLOT_COUNTS[i]), checked against Pool::new's contract
+// =====================================================================================================
+fn any_small_arena() -> &'static Arena {
+    let a = bk::mk_arena(1);
+    let o: usize = kani::any();
+    kani::assume(o <= 4096);
+    bk::set_state(a, o, 0);
+    kani::assume(bk::wf(a) || true);
+    bk::set_state(a, o, bk::CHUNK);
+    a
+}
+
+// @harness property=C12 fn=SlotBlock::new+FreeList::new+Pool::new kind=proof tier=quick cfg=release timeout=600 domain="loop-free; slot_size any class size, slot_count <= 64, arena offset <= 4096 (positions are offset-relative)"
+#[kani::proof]
+#[kani::stub(<crate::sys::unix::UnixVirtualMemory as crate::sys::VirtualMemory>::commit, bk::vm_commit_ok)]
+fn pool_new__contract() {
+    let a = any_small_arena();
+    let o0 = a.offset();
+    let c: usize = kani::any();
+    kani::assume(c < CLASS_COUNT as usize);
+    let slot_size = SLOT_SIZES[c];
+    let slot_count: u32 = kani::any();
+    kani::assume(slot_count >= 1 && slot_count <= 64);
+    let p = Pool::new(a, slot_size, slot_count);
+    let base = bk::base_of(a) as usize;
+    let blk = p.block.base.as_ptr() as usize - base;
+    let idx = p.free.indices.as_ptr() as usize - base;
+    let total = slot_size as usize * slot_count as usize;
+    assert!(blk >= o0 && blk % 8 == 0, "post: slot block above the old offset, 8-aligned");
+    assert!(idx >= blk + total, "post: slot block spans slot_size*slot_count bytes before the index array starts (disjoint)");
+    assert!(idx % 4 == 0, "post: index array 4-aligned");
+    assert!(a.offset() >= idx + slot_count as usize * 4, "post: index array has room for slot_count u32 entries inside the arena's allocated region");
+    assert!(p.block.slot_size == slot_size && p.block.slot_count == slot_count && p.block.bump.get() == 0, "post: block fields");
+    assert!(p.free.capacity == slot_count && p.free.len.get() == 0 && p.live_count.get() == 0, "post: empty free list, nothing live");
+    kani::cover!(slot_count == 64, "cover: 64 slots");
+    kani::cover!(o0 % 8 != 0, "cover: unaligned starting offset");
+}
+
+static mut NEW_CALLS: usize = 0;
+static mut NEW_OK: bool = true;
+fn pool_new__contract_stub(_arena: &Arena, slot_size: u32, slot_count: u32) -> Pool {
+    unsafe {
+        if NEW_CALLS >= CLASS_COUNT as usize || slot_size != SLOT_SIZES[NEW_CALLS] || slot_count != SLOT_COUNTS[NEW_CALLS] {
+            NEW_OK = false;
+        }
+        NEW_CALLS += 1;
+    }
+    Pool {
+        block: SlotBlock { base: NonNull::dangling(), slot_size, slot_count, bump: Cell::new(0) },
+        free: FreeList { indices: NonNull::dangling(), capacity: slot_count, len: Cell::new(0) },
+        live_count: Cell::new(0),
+    }
+}
+
+// @harness property=C12 fn=PoolSet::new kind=proof tier=quick cfg=release timeout=600 domain="single path; callee Pool::new replaced by its contract; loop over the 20 classes fully unwound"
+#[kani::proof]
+#[kani::unwind(22)]
+#[kani::stub(Pool::new, pool_new__contract_stub)]
+fn poolset_new__contract() {
+    let a = bk::mk_arena(1);
+    let set = PoolSet::new(a);
+    assert!(unsafe { NEW_CALLS } == CLASS_COUNT as usize && unsafe { NEW_OK }, "post: class i is built with (SLOT_SIZES[i], SLOT_COUNTS[i]), in class order");
+    let i: usize = kani::any();
+    kani::assume(i < CLASS_COUNT as usize);
+    assert!(set.pools[i].block.slot_size == SLOT_SIZES[i] && set.pools[i].block.slot_count == SLOT_COUNTS[i], "post: pools[i] has class i's geometry");
+    assert!(std::ptr::eq(set.arena, a), "post: backing arena recorded");
+    kani::cover!(i == 19, "cover: last class");
+}
